@@ -711,8 +711,8 @@ mut('C19', 'grid', """        elif isinstance(v2, (datetime.time, datetime.datet
 """, "", name='revert fix: right-operand kind guard')
 mut('C19', 'grid', """            return (v1 == v2) or (v1 != v1 and v2 != v2) or \\
                    abs(v1 - v2) < 0.000001""", """            return abs(v1 - v2) < 0.000001""", name='revert fix: NaN/INF reflexivity')
-mut('C19', 'grid', """                    set(self.column[col].keys()) != \\
-                    set(other.column[col].keys()):""", """                    len(self.column[col]) != len(other.column[col]):""", name='revert fix: column metadata tag names')
+mut('C19', 'grid', """                if key not in other.column[col] or \\
+                        not Grid._approx_check(self.column[col][key], other.column[col][key]):""", """                if not Grid._approx_check(self.column[col][key], other.column[col][key]):""", name='revert fix: column metadata tag names')
 mut('C19', 'grid', """        elif isinstance(v1, bool) or isinstance(v2, bool):
             # a boolean is not a number
             return isinstance(v1, bool) and isinstance(v2, bool) and v1 == v2
